@@ -675,5 +675,15 @@ pub fn run(ctx: &Ctx) -> Report {
         report.violations.extend(st.violations);
     }
     crate::c12::run_cyclic_family(ctx, &mut report);
+    // control flow at the compiler's limits (C04's limit family, the jump distances): every kind of jump sized
+    // to 65534..65537 bytes and beyond - the largest loop, if, else, logical operator and try statement the
+    // compiler accepts runs as the source says, one byte more is rejected
+    {
+        let cases = crate::c04::limit_expects(ctx, &["limit_jump_distance"]);
+        let n = cases.len();
+        let st = crate::expect::run_expect(ctx, &ctx.runner_checked, cases.into_iter(), &|_e, _r| None, &|_e, _p| None);
+        report.cov("control_flow_at_the_jump_limits", json!(n));
+        report.violations.extend(st.violations);
+    }
     report
 }
